@@ -763,7 +763,10 @@ class Overlay(Widget, WidgetContainerMixin, WidgetContainerListContentsMixin, ty
         real_size = self.pack(size, True)
         (maxcol, maxrow) = real_size
         left, right, top, bottom = self.calculate_padding_filler(real_size, True)
-        x, y = self.top_w.get_cursor_coords((maxcol - left - right, maxrow - top - bottom))
+        coords = self.top_w.get_cursor_coords(self.top_w_size(real_size, left, right, top, bottom))
+        if coords is None:
+            return None
+        x, y = coords
         if y >= maxrow:  # required??
             y = maxrow - 1
         return x + left, y + top
